@@ -469,7 +469,7 @@ class CExec:
             ck = e.get("castKind")
             if ck == "NullToPointer":
                 q = e["type"]["qualType"]
-                return k(z3.IntVal(0) if sort_of_ctype(q) == FN and "(*)" in q else NULL, st)
+                return k(z3.IntVal(0) if sort_of_ctype(q) is FN and q != "void *" else NULL, st)
             return self.ev(e["inner"][0], st, lambda v, st2: k(self.cast(v, e, ck), st2))
         if kind == "IntegerLiteral":
             q = e["type"]["qualType"]
@@ -510,6 +510,8 @@ class CExec:
         q = e["type"]["qualType"]
         if ck in ("IntegralCast", "IntegralToBoolean", "IntegralToFloating", "FloatingCast"):
             return self.coerce(v, q)
+        if ck == "BitCast" and z3.is_expr(v) and v.eq(NULL) and sort_of_ctype(q) is FN and q != "void *":
+            return z3.IntVal(0)          # (trait_validate)NULL
         return v
 
     def declref(self, e, st, k):
@@ -581,6 +583,10 @@ class CExec:
         cx = self.cx
         if op == "=":
             return self.ev(rhs, st, lambda v, st2: self.store(lhs, v, st2, k))
+        if op in ("&&", "||"):
+            merged = self.try_pure_shortcircuit(op, lhs, rhs, st, k)
+            if merged is not None:
+                return merged
         if op == "&&":
             return self.ev(lhs, st, lambda a, s1: cx.branch(
                 s1, truth(a), lambda t: self.ev(rhs, t, lambda b, s2: k(truth(b), s2)), lambda f: k(z3.BoolVal(False), f)))
@@ -590,6 +596,41 @@ class CExec:
         if op == ",":
             return self.ev(lhs, st, lambda _a, s1: self.ev(rhs, s1, k))
         return self.ev(lhs, st, lambda a, s1: self.ev(rhs, s1, lambda b, s2: k(self.arith(op, a, b), s2)))
+
+    def try_pure_shortcircuit(self, op, lhs, rhs, st, k):
+        """`a && b` / `a || b` whose operands neither fork nor change the state are evaluated to one boolean term
+        instead of forking the path: b is evaluated in a state where the guard (a, resp. !a) is assumed -- so the
+        obligations it generates (NULL checks, bounds) carry the guard -- and the result continues from the
+        original state."""
+        box = []
+        r1 = self.ev(lhs, st, lambda v, s: box.append((v, s)) or [])
+        if r1 or len(box) != 1:
+            return None
+        a, s1 = box[0]
+        if not self.same_state(st, s1):
+            return None
+        ta = truth(a)
+        guard = ta if op == "&&" else z3.Not(ta)
+        box2 = []
+        sg = s1.assume(guard)
+        if not self.cx.feasible(sg):
+            return k(ta if op == "||" else z3.BoolVal(False), s1) if False else None
+        r2 = self.ev(rhs, sg, lambda v, s: box2.append((v, s)) or [])
+        if r2 or len(box2) != 1:
+            return None
+        b, s2 = box2[0]
+        if not self.same_state(sg, s2, ignore_pc=True):
+            return None
+        tb = truth(b)
+        # facts assumed while evaluating b (e.g. list lengths >= 0) hold under the guard
+        extra = [z3.Implies(guard, c) for c in s2.pc[len(sg.pc):]]
+        res = z3.And(ta, tb) if op == "&&" else z3.Or(ta, tb)
+        return k(res, s1.assume(*extra) if extra else s1)
+
+    @staticmethod
+    def same_state(a, b, ignore_pc=False):
+        return (a.env is b.env or a.env == b.env) and a.mem is b.mem and a.own is b.own and a.trace == b.trace \
+            and a.exc is b.exc and (ignore_pc or a.pc == b.pc) and a.ghost is b.ghost
 
     def arith(self, op, a, b):
         if isinstance(a, FnRef) or isinstance(b, FnRef):
@@ -621,6 +662,13 @@ class CExec:
             x, y = z3.Int2BV(a, 64), z3.Int2BV(b, 64)
             r = {"&": x & y, "|": x | y, "^": x ^ y}[op]
             return z3.BV2Int(r, is_signed=True)
+        if op in ("<<", ">>"):
+            sb = z3.simplify(b)
+            if z3.is_int_value(sb):
+                return a * (2 ** sb.as_long()) if op == "<<" else a / (2 ** sb.as_long())
+            raise Unsupported("shift by a symbolic amount")
+        if z3.is_expr(a) and z3.is_expr(b) and a.sort() != b.sort():
+            raise Unsupported("comparison of %s with %s" % (a.sort(), b.sort()))
         t = {"+": lambda: a + b, "-": lambda: a - b, "*": lambda: a * b, "==": lambda: a == b, "!=": lambda: a != b,
              "<": lambda: a < b, "<=": lambda: a <= b, ">": lambda: a > b, ">=": lambda: a >= b}.get(op)
         if t is None:
@@ -723,6 +771,13 @@ class CExec:
             if h is None:
                 raise Unsupported("call through function-pointer field %s" % fld)
             return self.ev(f, st, lambda fn, st2: self.ev_list(argn, st2, lambda args, st3: h(self, fn, args, st3, k)))
+        if f.get("kind") == "DeclRefExpr" and f["referencedDecl"].get("kind") in ("VarDecl", "ParmVarDecl"):
+            # call through a local function-pointer variable: dispatched by the pointer's typedef name
+            fam = {"trait_post_setattr": "post_setattr", "trait_validate": "validate", "trait_getattr": "getattr",
+                   "trait_setattr": "setattr", "delegate_attr_name_func": "delegate_attr_name"}.get(f["type"]["qualType"])
+            h = self.cx.field_call.get(fam)
+            if h is not None:
+                return self.ev(f, st, lambda fn, st2: self.ev_list(argn, st2, lambda args, st3: h(self, fn, args, st3, k)))
         raise Unsupported("indirect call")
 
     def call_named(self, name, args, st, k):
